@@ -133,6 +133,12 @@ func planC14(tier string, root *simcore.RNG) *plan {
 			add(bs("ascii", 600), fmt.Sprintf("pad-first-line:%d", k))
 		}
 	}
+	// E9: well-formed files in exporter number style (short mantissas, tiny round-off residues)
+	for _, n := range []int{5, 60, 400} {
+		for k := 0; k < 4; k++ {
+			add(fmt.Sprintf("asciie:%d:%d", n, seed+uint64(7*n+k)))
+		}
+	}
 	// E7: what the path is
 	for _, b := range []string{bs("bin", 2), bs("ascii", 2), bs("bin", 0)} {
 		for _, op := range []string{"as-symlink", "as-directory", "as-devnull", "as-devzero", "as-missing", "odd-name"} {
@@ -244,7 +250,7 @@ func planC14(tier string, root *simcore.RNG) *plan {
 		var keys []string
 		for _, jr := range o.res.Jobs {
 			j0 := findJob(o.sc, jr.ID)
-			if jr.FaultFired || (j0 != nil && (strings.HasPrefix(j0.Base, "rand:") || strings.HasPrefix(j0.Base, "badverts:") || strings.HasPrefix(j0.Base, "tokens:") || strings.HasPrefix(j0.Base, "crash:"))) {
+			if jr.FaultFired || (j0 != nil && (strings.HasPrefix(j0.Base, "rand:") || strings.HasPrefix(j0.Base, "badverts:") || strings.HasPrefix(j0.Base, "asciie:") || strings.HasPrefix(j0.Base, "tokens:") || strings.HasPrefix(j0.Base, "crash:"))) {
 				if j := findJob(o.sc, jr.ID); j != nil {
 					keys = append(keys, j.Model+"|"+j.Base+"|"+strings.Join(j.Ops, ","))
 				}
